@@ -343,6 +343,10 @@ def _vnacal_family(rng):
            ("!", "px=vnacal_make_correlated_parameter $vc1 $pv @pf 0 @sg"),
            ("!", "px=vnacal_make_correlated_parameter $vc1 $pv @pfd 3 @sg"),
            ("!", "px=vnacal_make_correlated_parameter $vc1 $pv @pf 3 NULL"),
+           ("!", "px=vnacal_make_correlated_parameter $vc1 $pv @pfn 3 @sg"),
+           ("", "px=vnacal_make_correlated_parameter $vc1 $pv NULL 2 @sg"),
+           ("", "px=vnacal_make_correlated_parameter $vc1 0 NULL 3 @sg"),
+           ("", "px=vnacal_make_correlated_parameter $vc1 $pu NULL 3 @sg"),
            ("", "px=vnacal_make_correlated_parameter $vc1 $pv NULL 1 @sg0"),
            ("", "px=vnacal_make_correlated_parameter $vc1 $pv NULL 1 @sgn"),
            ("!", "vnacal_get_parameter_value $vc1 -1 0x1p+30"),
@@ -384,6 +388,12 @@ def _vnacal_family(rng):
     new += [("!", "vnacal_new_set_m_error $vn3 %s" % a) for a in
             ("@freq 0 @nsig NULL", "@freq -1 @nsig NULL",
              "@fdesc 2 @nsig NULL", "@flow 2 @nsig NULL")]
+    # not spelled out in vnacal_new(3): either outcome, but the contract of
+    # whatever is reported
+    new += [("", "vnacal_new_set_m_error $vn3 %s" % a) for a in
+            ("@freq 2 @nsigneg NULL", "@freq 2 NULL @nsig",
+             "@freq 2 @nsig @nsigneg", "@nfe 2 @nsig NULL")]
+    new += [("", "vnacal_new_set_m_error $vn3 NULL 2 NULL NULL")]
     new += [("!", "vnacal_new_set_p_tolerance $vn3 -0x1p-20"),
             ("!", "vnacal_new_set_et_tolerance $vn3 -0x1p-20"),
             ("!", "vnacal_new_set_pvalue_limit $vn3 -0x1p-3"),
